@@ -1,7 +1,9 @@
 //! sort stream (C20): ORDER BY / SKIP / LIMIT through real Cypher queries.
 //!   sort <dirs> <skip|-> <limit|-> <row> <row> … [@oracle…]
 //!     <dirs>  one letter per sort key, `a` ASC / `d` DESC;   <row> = L[k0,k1,…] (the key values)
-//!   -> `<sorted> <stable> <slice>` | `<full order> <slice>`      (row ids = input positions)
+//!   -> `<sorted> <stable> <slice> <full order> <sliced order>`      (row ids = input positions; the Spec
+//!      demands `1 1 1` and, where it orders all the keys (numbers, booleans, nulls, different kinds), the
+//!      exact id sequences: the slice of the stable sort of the FULL input)
 //!     sorted: no pair of the engine's output is out of order for the engine's own comparator
 //!             (`order_compare`, composed over the keys with ASC/DESC) — pairwise, not only adjacent
 //!     stable: rows the comparator calls equal keep their input order
@@ -125,19 +127,28 @@ impl State for S {
                 let mut seen = full.clone();
                 seen.sort();
                 if seen != (0..rows.len()).collect::<Vec<_>>() {
-                    return format!("0 0 0 | not-a-permutation {}", ids(&full));
+                    return format!("0 0 0 not-a-permutation {}", ids(&full));
                 }
                 // `sort_by` promises nothing for a comparator that is not a total preorder on the rows:
                 // report that instead of an (unspecified) permutation
-                let n = rows.len();
+                // (checked on the DISTINCT key vectors: big inputs have few of them)
+                let mut uniq: Vec<usize> = vec![];
+                {
+                    let mut seen_keys = std::collections::HashSet::new();
+                    for (i, r) in rows.iter().enumerate() {
+                        if seen_keys.insert(vtok::show(&Value::List(r.clone()))) {
+                            uniq.push(i);
+                        }
+                    }
+                }
                 let c = |i: usize, j: usize| key_cmp(&rows[i], &rows[j], dirs);
                 let mut pre = true;
-                for i in 0..n {
-                    for j in 0..n {
+                for &i in &uniq {
+                    for &j in &uniq {
                         if c(i, j) != c(j, i).reverse() {
                             pre = false;
                         }
-                        for k in 0..n {
+                        for &k in &uniq {
                             if c(i, j) != Ordering::Greater && c(j, k) != Ordering::Greater && c(i, k) == Ordering::Greater {
                                 pre = false;
                             }
@@ -161,7 +172,7 @@ impl State for S {
                 let s = skip.unwrap_or(0) as usize;
                 let want: Vec<usize> =
                     full.iter().skip(s).take(limit.map(|l| l as usize).unwrap_or(usize::MAX)).copied().collect();
-                format!("{} {} {} | {} {}", sorted as u8, stable as u8, (want == slice) as u8, ids(&full), ids(&slice))
+                format!("{} {} {} {} {}", sorted as u8, stable as u8, (want == slice) as u8, ids(&full), ids(&slice))
             }
             _ => "bad-op".into(),
         }
@@ -254,11 +265,71 @@ fn generate(rng: &mut Rng, n: usize, tier: &str, out: &mut dyn Write) {
             writeln!(out, "{}", if orc.is_empty() { toks } else { format!("{} {}", toks, orc) }).unwrap();
         }
     }
+    // --- SKIP/LIMIT over ORDER BY on inputs of 0..300 rows: sizes around powers of two and 64/128, 1-3 keys,
+    //     mixed directions, many ties on the leading key, a best row placed early / in the middle / last
+    writeln!(out, "#case big").unwrap();
+    let sizes: &[usize] = if tier == "thorough" {
+        &[0, 1, 2, 3, 7, 8, 9, 15, 16, 17, 31, 32, 33, 63, 64, 65, 66, 67, 96, 127, 128, 129, 130, 131, 160, 200, 255, 256, 257, 258, 300]
+    } else {
+        &[0, 1, 2, 16, 33, 63, 64, 65, 66, 100, 127, 128, 129, 130, 200, 257, 300]
+    };
+    let lead: Vec<Value> = vec![Value::Int(0), Value::Int(1), Value::Float(1.0), Value::Int(2), Value::Null];
+    for &n in sizes {
+        for nk in 1..=3usize {
+            for variant in 0..(if tier == "thorough" { 6 } else { 3 }) {
+                let dirs: String = (0..nk).map(|_| if rng.chance(2, 3) { 'a' } else { 'd' }).collect();
+                let nlead = (1 + rng.below(5) as usize).min(lead.len());
+                let mut rows: Vec<Vec<Value>> = (0..n)
+                    .map(|_| {
+                        (0..nk)
+                            .map(|k| {
+                                if k == 0 {
+                                    rng.pick(&lead[..nlead]).clone()
+                                } else if rng.chance(1, 10) {
+                                    Value::Float(rng.range(0, 9) as f64 + 0.5)
+                                } else {
+                                    Value::Int(rng.range(0, if k == 1 { 9 } else { 3 }))
+                                }
+                            })
+                            .collect()
+                    })
+                    .collect();
+                // a row that wins on the LATER keys while tying on the leading key, at a chosen position
+                if n > 0 && nk >= 2 {
+                    let pos = match variant % 3 {
+                        0 => n - 1,
+                        1 => n / 2,
+                        _ => rng.below(n as u64) as usize,
+                    };
+                    let best = if dirs.as_bytes()[1] == b'a' { -1 } else { 99 };
+                    rows[pos][1] = Value::Int(best);
+                    if rng.chance(1, 2) {
+                        // tie with the smallest leading key of the rows before it
+                        rows[pos][0] = rows[rng.below(pos as u64 + 1) as usize][0].clone();
+                    }
+                }
+                let skip = match rng.below(4) {
+                    0 => None,
+                    1 => Some(0),
+                    2 => Some(rng.below(4)),
+                    _ => Some(rng.below(n as u64 / 4 + 2)),
+                };
+                let limit = match rng.below(5) {
+                    0 => None,
+                    1 => Some(1),
+                    2 => Some(rng.below(6)),
+                    3 => Some(rng.below(n as u64 / 3 + 2)),
+                    _ => Some(n as u64 + rng.below(3)),
+                };
+                emit(out, &dirs, skip, limit, &rows);
+            }
+        }
+    }
     // --- random
     writeln!(out, "#case random").unwrap();
     let maxrows = if tier == "thorough" { 12 } else { 7 };
     for _ in 0..n {
-        let nk = 1 + rng.below(2) as usize;
+        let nk = 1 + rng.below(3) as usize;
         let dirs: String = (0..nk).map(|_| if rng.chance(2, 3) { 'a' } else { 'd' }).collect();
         let nr = rng.below(maxrows + 1) as usize;
         // a small pool of key values so that ties (stability) and near-equal numbers are frequent
